@@ -141,6 +141,31 @@ SNIPPETS: list[tuple[str, str]] = [
     ("module:pep695", "type Alias{n} = list[int]\n\n\ndef f{n}[U](a: U) -> U:\n    return a\n\n\nclass C{n}[W]:\n    def get(self) -> W: ...\n"),
     ("module:unicode", "def f{n}(a: str = 'ünïcödé ✓', b: str = '\\u2603') -> str:\n    \"\"\"Dócstring with ünicode ✓ and emoji 🎉.\"\"\"\n    return a\n"),
     ("names:underscore-shapes", "def a__b{n}(x__y: int, _z: int, w_: int, __v: int = 0, u__: str = 'u') -> None: ...\n\n\nclass Data__Frame{n}:\n    def go(self) -> None: ...\n\n\nclass __Odd__Name{n}__:\n    pass\n\n\nclass snake_case_class_{n}:\n    q__r: int = 1\n    s_: int = 2\n\n    def m__n(self, o__p: int) -> None: ...\n\n    def __dunder_thing__(self) -> None: ...\n"),
+    # ---------------------------------------------------------------- forms added after independently found aborts (base class expressions, generic bases, ...)
+    ('class:generic-restricted-untyped-methods', "class GV{n}(Generic[V]):\n    @classmethod\n    def make(cls, a, b=3):\n        return cls()\n\n    @staticmethod\n    def st(a): ...\n\n    def inst(self, x, y='s'):\n        return x\n\n    def typed(self, x: V) -> V:\n        return x\n"),
+    ('class:concrete-generic-bases', "class SA{n}(Sequence[int]):\n    def __len__(self) -> int:\n        return 0\n\n    def __getitem__(self, i):\n        return 0\n\n\nclass SB{n}(Sequence[list[int]]): ...\n\n\nclass SC{n}(typing.Collection['SA{n}']): ...\n\n\nclass SD{n}(Mapping[str, int]): ...\n\n\nclass SE{n}(dict[str, int]): ...\n\n\nclass SF{n}(list[int]): ...\n\n\nclass SG{n}(OrderedDict[str, int]): ...\n\n\nclass SH{n}(typing.List[int]): ...\n\n\nclass SI{n}(Sequence[T]):\n    def one(self) -> T: ...\n\n\nclass SJ{n}(Generic[T], Sequence[T]): ...\n\n\nclass SK{n}(Sequence[T], Generic[T]): ...\n\n\nclass SL{n}(Iterable[T_co]): ...\n\n\nclass SM{n}(defaultdict): ...\n\n\nclass SN{n}(tuple[int, str]): ...\n\n\nclass SO{n}(Sequence[tuple[int, ...]]): ...\n"),
+    ('class:paramspec-and-typevartuple', "from typing import ParamSpec, TypeVarTuple, Unpack, Concatenate\n\nP{n} = ParamSpec('P{n}')\nTs{n} = TypeVarTuple('Ts{n}')\n\n\nclass PA{n}(Generic[P{n}, T]):\n    def call(self, f: Callable[P{n}, T], *args: P{n}.args, **kwargs: P{n}.kwargs) -> T:\n        return f(*args, **kwargs)\n\n\nclass PB{n}(Generic[Unpack[Ts{n}]]):\n    def items(self) -> tuple[Unpack[Ts{n}]]: ...\n\n\nclass PC{n}(Generic[*Ts{n}]):\n    def first(self, *args: *Ts{n}) -> int: ...\n\n\ndef deco{n}(f: Callable[P{n}, T]) -> Callable[Concatenate[int, P{n}], T]: ...\n\n\ndef vt{n}(*args: Unpack[Ts{n}]) -> tuple[Unpack[Ts{n}]]: ...\n"),
+    ('class:foreign-private-base', "import argparse\nfrom argparse import _StoreAction as _Base{n}\n\n\nclass _Own{n}:\n    def own(self) -> int: ...\n\n\nclass FB{n}(argparse._StoreAction, _Own{n}):\n    def extra(self) -> int: ...\n\n\nclass FC{n}(_Base{n}):\n    def extra2(self) -> int: ...\n\n\ndef use{n}(a: argparse._StoreAction, b: '_Base{n}' = None) -> argparse._SubParsersAction: ...\n"),
+    ('class:base-expression-forms', "class BA{n}(type(Path())): ...\n\n\nclass BB{n}(os.PathLike): ...\n\n\nclass BC{n}(functools.partial): ...\n\n\nclass BD{n}(ABC, Generic[T]): ...\n\n\nclass BE{n}(object): ...\n\n\nclass BF{n}(typing.NamedTuple('BFBase{n}', [('a', int)])): ...\n\n\nclass BG{n}(Path if TYPE_CHECKING else object): ...\n\n\nclass BH{n}(*[int]): ...\n"),
+    ('class:init-subclass-keywords', 'class KA{n}:\n    def __init_subclass__(cls, flag: bool = False, **kwargs) -> None:\n        super().__init_subclass__(**kwargs)\n\n\nclass KB{n}(KA{n}, flag=True): ...\n\n\nclass KC{n}(KA{n}, metaclass=abc.ABCMeta, flag=False): ...\n'),
+    ('func:functools-decorators', "@functools.cache\ndef fa{n}(a: int) -> int:\n    return a\n\n\n@functools.lru_cache(maxsize=None)\ndef fb{n}(a: int) -> int:\n    return a\n\n\n@functools.singledispatch\ndef fc{n}(a) -> str:\n    return 'x'\n\n\n@fc{n}.register\ndef _(a: int) -> str:\n    return 'i'\n\n\n@fc{n}.register(str)\ndef _fc_str{n}(a):\n    return 's'\n\n\ndef fd{n}(fn):\n    @functools.wraps(fn)\n    def wrapper(*args, **kwargs):\n        return fn(*args, **kwargs)\n    return wrapper\n\n\n@fd{n}\ndef fe{n}(a: int) -> int:\n    return a\n\n\n@typing.final\ndef ff{n}() -> None: ...\n\n\n@typing.no_type_check\ndef fg{n}(a: 'not a type', b: 1 + 2 = 3) -> 'whatever': ...\n"),
+    ('func:contextmanager', 'import contextlib\n\n\n@contextlib.contextmanager\ndef cm{n}(a: int) -> Iterator[int]:\n    yield a\n\n\n@contextlib.asynccontextmanager\nasync def acm{n}(a: int):\n    yield a\n\n\nclass CM{n}:\n    def __enter__(self):\n        return self\n\n    def __exit__(self, *exc) -> bool:\n        return False\n\n    async def __aenter__(self): ...\n\n    async def __aexit__(self, et, ev, tb): ...\n'),
+    ('class:cached-property-slots-descriptor', "class Desc{n}:\n    def __get__(self, obj, objtype=None) -> int:\n        return 1\n\n    def __set__(self, obj, value: int) -> None: ...\n\n    def __set_name__(self, owner, name): ...\n\n\nclass CS{n}:\n    __slots__ = ('a', 'b', '__dict__')\n    d = Desc{n}()\n\n    def __init__(self) -> None:\n        self.a = 1\n        self.b = 's'\n\n    @functools.cached_property\n    def heavy(self) -> list[int]:\n        return []\n\n    @functools.cached_property\n    def untyped(self):\n        return 1\n\n    def __class_getitem__(cls, item):\n        return cls\n\n    def __getattr__(self, name: str) -> Any: ...\n\n    def __call__(self, *a, **k): ...\n"),
+    ('class:total-ordering', '@functools.total_ordering\nclass TO{n}:\n    def __init__(self, v: int) -> None:\n        self.v = v\n\n    def __eq__(self, other: object) -> bool:\n        return True\n\n    def __lt__(self, other: \'TO{n}\') -> bool:\n        """Less."""\n        return True\n'),
+    ('class:dataclass-variants', "@dataclass(frozen=True, order=True, slots=True)\nclass DA{n}:\n    a: int = 0\n    b: list[int] = field(default_factory=list, compare=False)\n    c: ClassVar[int] = 1\n    d: dataclasses.InitVar[int] = 0\n    _: dataclasses.KW_ONLY\n    e: str = 'e'\n\n    def __post_init__(self, d: int) -> None: ...\n\n\n@dataclasses.dataclass(kw_only=True)\nclass DB{n}(DA{n}):\n    f: float = 1.0\n\n\n@dataclass\nclass DC{n}(Generic[T]):\n    item: T\n    items: list[T] = field(default_factory=list)\n"),
+    ('class:property-variants', "class PV{n}:\n    def _get(self) -> int:\n        return 1\n\n    def _set(self, v: int) -> None: ...\n\n    x = property(_get, _set, doc='The x.')\n    y = property(lambda self: 2)\n\n    @property\n    def z(self): ...\n\n    @z.setter\n    def z(self, v): ...\n\n    @z.deleter\n    def z(self): ...\n\n    @property\n    @abstractmethod\n    def w(self) -> int: ...\n\n    @classmethod\n    @property\n    def cp(cls) -> int:\n        return 1\n\n    @staticmethod\n    @functools.cache\n    def sc() -> int:\n        return 1\n"),
+    ('attr:annotated-only-and-odd-annotations', "class AO{n}:\n    a: int\n    b: 'AO{n}'\n    c: list['AO{n}'] = []\n    d: typing.Annotated[int, 'meta'] = 0\n    e: Optional['AO{n}'] = None\n    f: Callable[..., 'AO{n}'] | None = None\n    g: type['AO{n}'] | None = None\n    h: 'int | None' = None\n    i: Literal['a'] | Literal['b'] = 'a'\n    j: Final[int] = 1\n    k: ClassVar[Final[int]] = 2\n    l: typing.Required[int] = 1\n\n    def __init__(self) -> None:\n        self.m: 'list[AO{n}]' = []\n        self.n = self.o = 0\n        self.p, self.q = 1, 's'\n        (self.r, (self.s, self.t)) = 1, (2, 3)\n        self.u: int\n        with open(os.devnull) as self.v:\n            pass\n        for self.w in range(1):\n            pass\n"),
+    ('type:newtype-and-aliases', "UserId{n} = typing.NewType('UserId{n}', int)\nVec{n} = list[float]\nMaybe{n} = Optional[T]\nHandler{n} = Callable[[int], None]\nJson{n} = Union[dict[str, 'Json{n}'], list['Json{n}'], str, int, None]\n\n\ndef na{n}(a: UserId{n}, b: Vec{n}, c: Maybe{n}[int], d: Handler{n}, e: Json{n} = None) -> UserId{n}:\n    return a\n\n\nclass NA{n}:\n    uid: UserId{n}\n    vec: Vec{n} = []\n"),
+    ('type:typing-extras', "def te{n}(a: typing.Annotated[int, 'x'], b: typing.Type[int], c: typing.Tuple[int, ...], d: typing.FrozenSet[int], e: typing.Deque[int], f: typing.DefaultDict[str, int], g: typing.Counter[str], h: typing.ChainMap[str, int], i: typing.Awaitable[int], j: typing.Coroutine[Any, Any, int], k: typing.AsyncIterator[int], l: typing.Generator[int, None, str], m: typing.IO[str], n: typing.Pattern[str], o: typing.SupportsInt, p: typing.Hashable, q: typing.Sized, r: typing.NoReturn = None, s: typing.Never = None, t: typing.LiteralString = 'x', u: typing.TypeGuard[int] = False, v: bytes | bytearray | memoryview = b'', w: complex = 1j, x: frozenset[int] = frozenset(), y: range = range(1), z: slice = slice(1)) -> typing.NoReturn:\n    raise SystemExit\n"),
+    ('func:return-annotation-forms', 'def ra{n}() -> \'tuple[int, str]\': ...\n\n\ndef rb{n}() -> tuple[()]: ...\n\n\ndef rc{n}() -> tuple[int, ...]: ...\n\n\ndef rd{n}() -> tuple[None, int]: ...\n\n\ndef re{n}() -> tuple[tuple[int, str], list[tuple[()]]]: ...\n\n\ndef rf{n}() -> None | None: ...\n\n\ndef rg{n}() -> Optional[None]: ...\n\n\ndef rh{n}() -> typing.Self: ...\n\n\ndef ri{n}() -> type[None]: ...\n\n\ndef rj{n}() -> Literal[None]: ...\n\n\ndef rk{n}() -> \'Literal["a b", 1, True, None]\': ...\n\n\ndef rl{n}() -> Callable[[], tuple[int, str]]: ...\n\n\ndef rm{n}() -> Callable[[Callable[[int], str]], Callable[..., None]]: ...\n'),
+    ('func:param-default-forms-2', "def pd{n}(a=(), b=(1,), c={{}}, d=set(), e=frozenset({{1}}), f=b'x', g=1j, h=..., i=1e10, j=-1e-3, k=0x1F, l=1_000, m='a' 'b', n=f'x', o=None or 1, p=[1] * 3, q=lambda: 0, r=int, s=Path.cwd, t=os.environ.get('X'), u=CONSTANT + 1, v=(yield_ := 3), x=not None, y=-(-1), z=True and False): ...\n"),
+    ('class:nested-deep-mixed', "class NM{n}:\n    class A:\n        class B(Enum):\n            X = 1\n\n        class C(Generic[T]):\n            class D:\n                def m(self, t: T) -> 'NM{n}.A.C.D': ...\n\n        def use(self, b: 'NM{n}.A.B', c: 'NM{n}.A.C[int]') -> None: ...\n\n    def outer(self, a: A, d: 'A.C.D') -> A.B: ...\n"),
+    ('class:method-aliases-and-lambdas', 'class MA{n}:\n    def real(self, a: int) -> int:\n        return a\n\n    alias = real\n    lam = lambda self, x: x\n    stat = staticmethod(lambda x: x)\n    cm = classmethod(lambda cls: cls)\n    bound = _helper\n    part = functools.partialmethod(real, 1)\n\n\nmod_alias{n} = MA{n}.real\nmod_lam{n} = lambda a, b=1: a\nmod_part{n} = functools.partial(_helper, 1)\n'),
+    ('module:conditional-and-try-imports', 'try:\n    import numpy_not_there_{n} as npx{n}\nexcept ImportError:\n    npx{n} = None\n\ntry:\n    from typing import Self as Self{n}\nexcept ImportError:\n    Self{n} = Any\n\nif sys.version_info >= (3, 99):\n    def newer{n}() -> int: ...\nelse:\n    def newer{n}() -> str: ...\n\nif TYPE_CHECKING:\n    def only_checking{n}() -> int: ...\n\nfor _i{n} in range(2):\n    def in_loop{n}() -> int: ...\n\nwith open(os.devnull) as _fh{n}:\n    def in_with{n}() -> int: ...\n\n\nclass TryC{n}:\n    try:\n        a: int = 1\n    except Exception:\n        a = 2\n\n    try:\n        def m(self) -> int: ...\n    finally:\n        pass\n'),
+    ('class:exception-hierarchy', 'class EA{n}(Exception): ...\n\n\nclass EB{n}(EA{n}, ValueError):\n    code: int = 1\n\n\nclass EC{n}(BaseException): ...\n\n\nclass ED{n}(ExceptionGroup): ...\n\n\nclass EE{n}(Warning): ...\n\n\ndef raises{n}(e: EA{n}, f: type[EB{n}] = EB{n}) -> EC{n}: ...\n\n\nclass UsesExc{n}(EA{n}.__class__): ...\n'),
+    ('enum:odd-members', "class OE{n}(Enum):\n    A = auto()\n    B = (1, 'b')\n    C = [1]\n    D = None\n    E = A\n    F: int = 5\n    _private = 6\n    __dunder__ = 7\n\n    @property\n    def p(self) -> int:\n        return 1\n\n    @classmethod\n    def _missing_(cls, value): ...\n\n    @staticmethod\n    def s() -> int:\n        return 1\n\n    class Inner:\n        x = 1\n\n\nclass OF{n}(IntEnum):\n    ONE = 1\n    TWO = ONE + 1\n\n\nclass OG{n}(enum.StrEnum):\n    S = 's'\n\n\nclass OH{n}(OE{n}.__class__): ...\n\n\n@enum.unique\nclass OI{n}(enum.IntFlag, boundary=enum.KEEP):\n    R = 1\n"),
+    ('func:overload-variants', 'class OV{n}:\n    @overload\n    @staticmethod\n    def s(a: int) -> int: ...\n    @overload\n    @staticmethod\n    def s(a: str) -> str: ...\n    @staticmethod\n    def s(a):\n        return a\n\n    @overload\n    @classmethod\n    def c(cls, a: int) -> int: ...\n    @overload\n    @classmethod\n    def c(cls, a: str) -> str: ...\n    @classmethod\n    def c(cls, a):\n        return a\n\n    @overload\n    def __init__(self, a: int) -> None: ...\n    @overload\n    def __init__(self, a: str, b: int = 1) -> None: ...\n    def __init__(self, a, b=1) -> None:\n        self.a = a\n\n    @property\n    def p(self) -> int: ...\n\n    @overload\n    def only_overloads(self, a: int) -> int: ...\n    @overload\n    def only_overloads(self, a: str) -> str: ...\n'),
+    ('module:name-collisions', "class list{n}: ...\n\n\nclass int:  # shadows the builtin inside this module\n    def real(self) -> 'int': ...\n\n\ndef str(a: int) -> int: ...\n\n\nclass Path{n}(Path): ...\n\n\ndef typing_shadow{n}(typing: int, os: 'int' = None, Any: list = None) -> int: ...\n"),
     ("module:big-function", "def f{n}(" + ", ".join(f"p{i}: int = {i}" for i in range(60)) + ") -> int:\n    return 0\n"),
 ]
 
